@@ -407,23 +407,34 @@ METHODS = (None, "", "aes", "xor", "best", "AES", "rot13", 5, True)
 CTS = (None, "", _XOR_CT, "QQ", _XOR_CT.rstrip("=")[:-1] if _XOR_CT.endswith("=") else _XOR_CT[:-1], "!!", "AAAAAAAAAAAAAAAAAAAAAAAAAAAAAAAAAAAAAAAAAAAAAAAAAAA=", 7, b"QUJD", ["x"])
 
 
-@obligation(prop="C08", sites=("value", "reject", "passthrough"),
-            encodes=["cincoconfig.fields.secure_field.SecureField.to_python"],
-            stubs=("FakeFS",), budget={"quick": 90, "thorough": 240},
-            what="SecureField.to_python over stored-value shapes (None|str|int|list|dict with method/ciphertext "
-                 "drawn from menus incl. wrong types, bad base64, truncated/non-aligned ciphertext): returns only for "
-                 "None, str, or a well-formed pair; raises otherwise; never another outcome")
-def secure_to_python_shapes(kind: int, mi: int, ci: int, has_m: bool, has_c: bool, s: str) -> bool:
-    """
-    pre: 0 <= kind <= 4 and 0 <= mi < 9 and 0 <= ci < 10 and len(s) <= 3
-    post: _
-    """
+def _secure_shapes(via: int, kind: int, mi: int, ci: int, has_m: bool, has_c: bool, s: str) -> bool:
+    from cincoconfig import DictField, ListField, StringField
+    if via and kind in (0, 1):
+        skip("None / plain text: the direct route")
     fs = FakeFS(files={KEYPATH: KEY}, dirs=["/k"])
     with fs.patched():
         schema = Schema()
         schema.pw = SecureField(method="xor")
+        schema.pws = ListField(SecureField(method="xor"), default=lambda: [])
+        schema.pwd = DictField(StringField(), SecureField(method="xor"), default=lambda: {})
         cfg = schema(key_filename=KEYPATH)
-        f = schema.pw
+
+        class _Route:
+            """the stored value reaches the field directly, or as a tree leaf, list item or dict value"""
+
+            @staticmethod
+            def to_python(cfg_, value):
+                if via == 0:
+                    return schema.pw.to_python(cfg_, value)
+                if via == 1:
+                    cfg_.load_tree({"pw": value})
+                    return cfg_.pw
+                if via == 2:
+                    cfg_.load_tree({"pws": [{"method": "xor", "ciphertext": _XOR_CT}, value]})
+                    return cfg_.pws[1]
+                cfg_.load_tree({"pwd": {"k": value}})
+                return cfg_.pwd["k"]
+        f = _Route
         if kind == 0:
             return hold("passthrough", f.to_python(cfg, None) is None)
         if kind == 1:
@@ -468,3 +479,57 @@ def secure_to_python_shapes(kind: int, mi: int, ci: int, has_m: bool, has_c: boo
         if m == "xor" and c == _XOR_CT:
             hold("value", out == "pw", "wrong plaintext")
     return True
+
+
+def _mk_shapes(via: int):
+    name = "secure_to_python_shapes" if via == 0 else "secure_to_python_shapes_via%d" % via
+
+    @obligation(prop="C08", name=name, group="secure_to_python_shapes", sites=("value", "reject", "passthrough"),
+                encodes=["cincoconfig.fields.secure_field.SecureField.to_python"],
+                stubs=("FakeFS",), budget={"quick": 240, "thorough": 480},
+                what="SecureField.to_python over stored-value shapes (None|str|int|list|dict with method/ciphertext "
+                     "drawn from menus incl. wrong types, bad base64, truncated/non-aligned ciphertext), reached %s: "
+                     "returns only for None, str, or a well-formed pair; raises otherwise; never another outcome"
+                     % ("directly", "as a tree leaf", "as an item of List(Secure)", "as a value of Dict(Str, Secure)")[via])
+    def ob(kind: int, mi: int, ci: int, has_m: bool, has_c: bool, s: str) -> bool:
+        """
+        pre: 0 <= kind <= 4 and 0 <= mi < 9 and 0 <= ci < 10 and len(s) <= 3
+        post: _
+        """
+        return _secure_shapes(via, kind, mi, ci, has_m, has_c, s)
+
+
+for _via in range(4):
+    _mk_shapes(_via)
+
+
+# =========================================================================== sessions (providers are per session)
+@obligation(prop="C08", sites=("sessions",), budget={"quick": 120, "thorough": 240}, stubs=("FakeFS",),
+            encodes=["cincoconfig.encryption.KeyFile._get_provider", "cincoconfig.encryption.KeyFile.encrypt",
+                     "cincoconfig.encryption.KeyFile.decrypt"],
+            what="round trip ACROSS provider objects and sessions: one KeyFile object serves two sessions while the "
+                 "key changes in between (replaced, re-created, generate_key); for xor, aes and best what the second "
+                 "session encrypts is decrypted by a new KeyFile object with the key in the file and vice versa; "
+                 "xor == text XOR file bytes")
+def sessions_across_key_change(mi: int, first_use: int, ti: int, change: int, nested: bool) -> bool:
+    """
+    pre: 0 <= mi <= 2 and 0 <= first_use <= 2 and 0 <= ti <= 3 and 0 <= change <= 2
+    post: _
+    """
+    from vf.hlib.scenarios import TEXTS, sessions_across_key_change as scenario
+    method = ("xor", "aes", "best")[0]
+    for i, m in enumerate(("xor", "aes", "best")):
+        if mi == i:
+            method = m
+    text = TEXTS[0]
+    for i in range(len(TEXTS)):
+        if ti == i:
+            text = TEXTS[i]
+    fu = ch = 0
+    for i in range(3):          # (selectors are decided by the solver here; the scenario itself runs concretely)
+        if first_use == i:
+            fu = i
+        if change == i:
+            ch = i
+    nst = True if nested else False
+    return scenario("sessions", method, fu, text, ch, nst)
